@@ -876,6 +876,11 @@ class SecureHomeKitConnection(HomeKitConnection):
                 self._drop_transport()
                 raise
 
+        if not self.transport:
+            # The connection was lost while the accessory's last pair-verify
+            # reply was being processed, so there is no session to secure.
+            raise AccessoryDisconnectedError("Connection lost while pair-verify was completing")
+
         # Secure session has been negotiated - switch protocol so all future messages are encrypted
         self.protocol = SecureHomeKitProtocol(
             self,
